@@ -11,17 +11,20 @@ for f in sorted(glob.glob(os.path.join(ROOT, 'seeded', '*', 'meta.json'))):
   rows.append('| %s | %s | %s | %s | %s | %s |' % (
       m['name'], m['breaks_property'], note.replace('|', '/'),
       'caught' if first['violations'] else 'MISSED',
-      ('caught (%d violations, %ds)' % (last['violations'], last['wall_s'])) if last['violations'] else 'MISSED',
+      ('no longer a breaking change: ' + m['neutralised']) if m.get('neutralised') else
+      (('caught (%d violations, %ds)' % (last['violations'], last['wall_s'])) if last['violations'] else 'MISSED'),
       m.get('strengthening', '-').replace('|', '/')))
 table = ['| change | property | what it is (first line of the author\'s notes) | first run of the check as it was | current check (quick) | what was strengthened |',
          '|---|---|---|---|---|---|'] + rows
 n = len(rows)
 c0 = sum(1 for r in rows if '| caught |' in r)
 c1 = sum(1 for r in rows if 'caught (' in r)
+cn = sum(1 for r in rows if 'no longer a breaking change' in r)
 text = ('%d changes written by independent sub-agents (each saw only the property text and a scratch worktree), '
         'all confirmed by me in a scratch worktree (test suite unchanged: 128 pass; demo exits 1 with the change, 0 without). '
-        '%d were caught by the quick check as it stood when the change arrived, %d are caught by the current quick checks.\n\n'
-        % (n, c0, c1)) + '\n'.join(table) + '\n'
+        '%d were caught by the quick check as it stood when the change arrived, %d are caught by the current quick checks'
+        '%s.\n\n'
+        % (n, c0, c1, (' and %d no longer break the property on the repaired tree' % cn) if cn else '')) + '\n'.join(table) + '\n'
 p = os.path.join(ROOT, 'DESIGN.md')
 s = open(p).read()
 if 'SEEDED_TABLE_PLACEHOLDER' in s:
